@@ -4,6 +4,7 @@ package interp
 
 import (
 	"fmt"
+	"go/token"
 	"go/types"
 	"sort"
 	"strings"
@@ -102,6 +103,9 @@ type pathState struct {
 	logWrites bool
 	writes   []*value
 	lastPanic string
+	ovfWatch bool
+	ovf      *smt.Term
+	trunc    *smt.Term
 	models   []cachedModel
 	lits     map[*smt.Term]bool
 	litHits  int
@@ -111,6 +115,7 @@ type pathState struct {
 	sliceAt  map[*value][]value
 	mapWrites []*gmap
 	syncEvents []string
+	relDiv   map[relDivKey]relDivQR // zz_reldiv.go
 }
 
 type undoRec struct {
@@ -576,3 +581,84 @@ func sortedKeys(m map[string]int) []string {
 }
 
 var _ = time.Now
+
+// watchOverflow accumulates the condition under which a signed integer
+// operation executed by the code under test wraps around.
+func (ps *pathState) watchOverflow(fr *frame, op token.Token, x, y value) {
+	if fr.fn.Pkg == nil || !ps.w.prog.isTarget(fr.fn.Pkg) || (strings.HasPrefix(fr.fn.Name(), "zz") && !strings.HasPrefix(fr.fn.Name(), "zzProbe")) {
+		return
+	}
+	if !isSym(x) && !isSym(y) {
+		return
+	}
+	sx, ok := x.(sym)
+	k := types.Invalid
+	if ok {
+		k = sx.k
+	} else if sy, ok := y.(sym); ok {
+		k = sy.k
+	}
+	if k == types.Invalid || !ksigned(k) {
+		return
+	}
+	c := ps.ctx
+	tx, ty := termOf(c, x), termOf(c, y)
+	w := kwidth(k)
+	zero := c.BVC(w, 0)
+	var cond *smt.Term
+	switch op {
+	case token.ADD:
+		r := c.BvAdd(tx, ty)
+		sameSign := c.Eq(c.SLt(tx, zero), c.SLt(ty, zero))
+		cond = c.And(sameSign, c.Not(c.Eq(c.SLt(r, zero), c.SLt(tx, zero))))
+	case token.SUB:
+		r := c.BvSub(tx, ty)
+		diffSign := c.Not(c.Eq(c.SLt(tx, zero), c.SLt(ty, zero)))
+		cond = c.And(diffSign, c.Not(c.Eq(c.SLt(r, zero), c.SLt(tx, zero))))
+	case token.MUL:
+		cond = c.SMulOverflows(tx, ty)
+	}
+	if ps.ovf == nil {
+		ps.ovf = cond
+	} else {
+		ps.ovf = c.Or(ps.ovf, cond)
+	}
+}
+
+// watchTruncation accumulates the condition under which an integer conversion loses value.
+func (ps *pathState) watchTruncation(fr *frame, dst types.Type, x value) {
+	if fr.fn.Pkg == nil || !ps.w.prog.isTarget(fr.fn.Pkg) || (strings.HasPrefix(fr.fn.Name(), "zz") && !strings.HasPrefix(fr.fn.Name(), "zzProbe")) {
+		return
+	}
+	sx, ok := x.(sym)
+	if !ok || kfloat(sx.k) || sx.k == types.Bool {
+		return
+	}
+	b, ok := dst.Underlying().(*types.Basic)
+	if !ok || b.Info()&types.IsInteger == 0 {
+		return
+	}
+	dk := kindOfType(dst)
+	dw, sw := kwidth(dk), kwidth(sx.k)
+	if dw >= sw && ksigned(dk) == ksigned(sx.k) {
+		return
+	}
+	c := ps.ctx
+	// value preserved iff converting back (with the destination's signedness) yields the original
+	// and the sign interpretation agrees
+	r := c.Resize(sx.t, dw, ksigned(sx.k))
+	back := c.Resize(r, sw, ksigned(dk))
+	cond := c.Not(c.Eq(back, sx.t))
+	if dw >= sw && ksigned(dk) != ksigned(sx.k) {
+		// same or wider width, sign change: loses value iff negative (signed->unsigned) or top bit set (unsigned->signed same width)
+		cond = c.SLt(sx.t, c.BVC(sw, 0))
+		if dw > sw && !ksigned(sx.k) {
+			return
+		}
+	}
+	if ps.trunc == nil {
+		ps.trunc = cond
+	} else {
+		ps.trunc = c.Or(ps.trunc, cond)
+	}
+}
